@@ -24,8 +24,8 @@ vars == <<pub, cache, last, steps>>
 Req(n, k, a) == [BaseQ EXCEPT !.name = n, !.kind = k, !.acc = a, !.ver = pub[n],
                               !.slash = k \in DirKinds \cup DagKinds]   \* one URL per (n, k)
 Resp(q, tags, star) == IF MDevs = {} THEN IdealT(q, tags, star) ELSE AsBuiltT(q, tags, star, MDevs)
-\* everything that is part of the URL (Accept and its parameters are not)
-Key(q) == <<UrlId(q), q.slash, q.fmtq, q.fname, q.dl, q.scope, q.bytes, q.order, q.dups, q.cver>>
+\* the gateway instance (origin) and everything that is part of the URL (Accept and its parameters are not)
+Key(q) == <<q.conv, q.deser, UrlId(q), q.slash, q.fmtq, q.fname, q.dl, q.scope, q.bytes, q.order, q.dups, q.cver>>
 Stored(key) == {e \in cache : e.key = key}
 Entry(q, r)  == [key |-> Key(q), et |-> r.et, rep |-> r.rep]
 NoLast == [op |-> "none", q |-> BaseQ, tags |-> {}, r |-> Err(0), sel |-> {}, cur |-> "", had |-> FALSE]
